@@ -76,9 +76,12 @@ class CRSDecoder:
                      len(some_shares), len(their_shareids))
         precondition(len(some_shares) == self.required_shares,
                      len(some_shares), self.required_shares)
+        # zfec reorders the list of blocks it is given in place; hand it
+        # copies of both lists so the caller's blocks stay paired with the
+        # caller's share ids.
         return await defer_to_thread(
             self.decoder.decode,
-            some_shares,
+            list(some_shares),
             [int(s) for s in their_shareids]
         )
 
